@@ -41,6 +41,23 @@ pub fn with_ranker<const CAP: usize>(min: usize, max: usize, default_ranker: boo
     }
 }
 
+/// Needle of exactly LEN identical bytes (concrete contents), nondeterministic
+/// ranker: decides the loop structure of `with_ranker` (the 255 cap, the
+/// `u8::try_from(i).unwrap()`) cheaply for long needles.
+#[cfg(kani)]
+pub fn with_ranker_long<const LEN: usize>() {
+    let needle = [b'a'; LEN];
+    match Pair::with_ranker(&needle[..], NondetRanker) {
+        None => assert!(LEN < 2, "oracle: no pair for a needle of >= 2 bytes"),
+        Some(p) => {
+            assert!(p.index1() != p.index2(), "oracle: pair offsets equal");
+            assert!((p.index1() as usize) < LEN && (p.index2() as usize) < LEN, "oracle: pair offset outside the needle");
+            assert!(p.index1() <= 254 && p.index2() <= 254, "oracle: pair offset above 254");
+            kani::cover!(p.index1() == 254, "last eligible offset chosen");
+        }
+    }
+}
+
 #[cfg(kani)]
 pub fn with_indices<const CAP: usize>(max: usize) {
     let buf = Buf::<CAP>::any();
@@ -93,6 +110,7 @@ inst!(c19_new_24, [props=C19 xprops=C14 tier=quick cfg=x86std t=900 role=pair-ne
 inst!(c19_with_indices, [props=C19+C14 tier=quick cfg=x86std t=600 role=with_indices], 3, with_indices::<300>(300));
 #[cfg(any(vcfg_x86std, vcfg_x86none, vcfg_x86alloc, vcfg_x86avx2))]
 inst!(c19_finders_report_pair, [props=C19 xprops=C14 tier=quick cfg=x86std t=600 role=finders-report-pair], 9, finders_report_pair::<6>());
-inst!(c19_with_ranker_257, [props=C19+C14+C10 tier=thorough cfg=x86std t=1800 role=with_ranker-cap uw=with_ranker:260], 3, with_ranker::<257>(257, 257, false));
+inst!(c19_with_ranker_257, [props=C19+C10 xprops=C14 tier=thorough cfg=x86std t=1800 role=with_ranker-cap uw=with_ranker:260], 3, with_ranker::<257>(257, 257, false));
+inst!(c19_with_ranker_long_258, [props=C19+C14+C10 tier=quick cfg=x86std t=1800 role=with_ranker-cap uw=with_ranker:260], 3, with_ranker_long::<258>());
 inst!(c19_with_ranker_cap, [props=C19+C10 xprops=C14 tier=thorough cfg=x86std t=3600 role=with_ranker], 262, with_ranker::<260>(250, 260, false));
 inst!(c19_with_ranker_300, [props=C19 xprops=C14 tier=thorough cfg=x86std t=7200 role=with_ranker], 302, with_ranker::<300>(0, 300, false));
